@@ -1169,6 +1169,9 @@ template <class D> struct Hist {
     unsigned increases = 0, last_increase = 0, independent = 0;
     bool with_join = t.flag();
     bool with_queries = t.flag();
+    // like the fixpoint iterator's widening delay: the first `delay` steps use join, so that the
+    // left operand of the first widening already carries explicit relations between variables
+    unsigned delay = t.pick(4);
     std::set<var_t> dummy;
     unsigned nb = 1 + t.pick(3);
     std::vector<Body> bodies(nb);
@@ -1177,15 +1180,18 @@ template <class D> struct Hist {
       for (unsigned q = 0; q < len; q++) {
         var_t lhs = ivar();
         // mostly increments/decrements of one variable, sometimes an arbitrary expression
-        if (t.pick(3) != 2)
+        unsigned form = t.pick(4);
+        if (form <= 1)
           bd.asg.push_back({lhs, lin_t(lhs) + lin_t(z_number(t.small_int(4)))});
+        else if (form == 2) // x := y + c : ties two variables by a difference (relational domains)
+          bd.asg.push_back({lhs, lin_t(ivar()) + lin_t(z_number(t.small_int(3)))});
         else
           bd.asg.push_back({lhs, linexp(2, dummy)});
       }
       bd.use_guard = t.pick(3) == 0;
       bd.guard = constraint(dummy);
     }
-    ctx.log << "chain: thresholds=" << nthr << " join_first=" << with_join << " queries=" << with_queries << " bounded_start=" << bounded_start;
+    ctx.log << "chain: thresholds=" << nthr << " delay=" << delay << " join_first=" << with_join << " queries=" << with_queries << " bounded_start=" << bounded_start;
     for (unsigned q = 0; q < nb; q++) {
       ctx.log << "\n  body" << q << ":";
       for (auto &b : bodies[q].asg)
@@ -1243,7 +1249,7 @@ template <class D> struct Hist {
       if (INT64_WEIGHTS && (large_magnitude(y, vars) || large_magnitude(x, vars)))
         throw Truncate{"int64_dbm_weights_large_magnitude"};
       D arg = with_join ? (x | y) : y;
-      D nx = nthr ? x.widening_thresholds(arg, ts) : (x || arg);
+      D nx = it < delay ? (x | arg) : (nthr ? x.widening_thresholds(arg, ts) : (x || arg));
       // widening describes both arguments
       std::vector<State> wn = wx;
       wn.insert(wn.end(), wy.begin(), wy.end());
@@ -1260,6 +1266,8 @@ template <class D> struct Hist {
         nx.normalize();
       }
       bool inc = !(nx <= x);
+      if (it < delay)
+        inc = false; // joins are not part of the chain whose length is bounded
       if (inc) {
         increases++;
         last_increase = it;
